@@ -10,7 +10,7 @@ use std::time::Instant;
 pub const RULE: &str = "cases = accepted connected graphs with D=1..6, L=1..5 (so D*L covers odd and even values), points whose Box-Muller coordinates a in (0,1) include 1e-300, 2^-53, 1-2^-53 and b in [0,1) includes 0, 1/8, 1/4, 1/2, 3/4, 1-2^-53. oracle: component n=l*D+i of the metadata q_vectors equals sqrt(-2 ln a_j) cos(2 pi b_j) (n even) or sin (n odd) with j = n div 2 and the pair at coordinates 2E-1+2j, 2E+2j; absolute tolerance 2e-14*r; for odd D*L the last sine is unused. supplementary statistical stage: for 10 (D,L) configurations the sample mean, variance and every pairwise covariance of the D*L Gaussian components over 2e5 (thorough 2e6) uniform points must agree with N(0,1) independent components within 6.5 standard errors. non-trivial = D*L odd or L>=2; distinct = distinct case encodings";
 
 pub fn gen_case(t: &mut Tape, tier: Tier) -> Option<Phys> {
-    let opts = PhysOpts { max_e: tier.pick(8, 9), max_l: 8, min_omega: 0.15, dmax: 6, max_ops: 1, profile: gen::PointProfile { u_w: [0.6, 0.4, 0.0, 0.0], xi_w: [0.3, 0.0, 0.7, 0.0], lambda_tail: 0.0, bm_extreme: 0.35 } };
+    let opts = PhysOpts { max_e: tier.pick(8, 9), max_l: 8, min_omega: 0.15, dmax: 6, max_ops: 1, profile: gen::PointProfile { u_w: [0.6, 0.4, 0.0, 0.0], xi_w: [0.3, 0.0, 0.58, 0.12], lambda_tail: 0.0, bm_extreme: 0.35 } };
     if t.chance(0.1) {
         gen::gen_phys_union(t, &opts)
     } else {
